@@ -171,7 +171,7 @@ class Spec:
                     ['M', 'remove_node', 'min'], ['M', 'remove_node', 'max'],
                     ['M', 'remove_nodes_from', 'list', 'min'], ['M', 'remove_nodes_from', 'list', 'max'],
                     ['M', 'remove_nodes_from', 'gen', 'min'], ['M', 'remove_nodes_from', 'gen', 'max'],
-                    ['M', 'copy'], ['M', 'subgraph']]
+                    ['M', 'copy'], ['M', 'subgraph'], ['M', 'subgraph', 'repeated-keys'], ['M', 'copy', 'system']]
         if len(m.nodes) >= 2:
             ops += [['M', 'add_edge'], ['M', 'add_interaction', 'ok'],
                     ['M', 'add_or_replace', 0], ['M', 'add_or_replace', 1],
@@ -202,6 +202,21 @@ class Spec:
             else:
                 out[slot] = abstract_impl(mol)
                 out[slot]['max_node'] = mol.max_node   # hidden state that influences merges
+                # every other instance attribute the class may keep (caches): part of the state, whatever it is called
+                out[slot]['hidden'] = sorted((k, repr(v)[:200]) for k, v in vars(mol).items()
+                                             if k not in ('_node', '_adj', 'graph', 'meta', '_force_field', 'nrexcl', 'interactions', '_citations',
+                                                          'citations', 'max_node', 'log_entries', 'box', '__networkx_cache__', 'nodes', 'edges', 'adj', 'degree'))
+        m, c = world['impl']['M'], world['impl']['C']
+        if m is not None and c is not None:
+            # what the copy SHARES with its source decides the future of both: merged states must agree on it
+            out['shared'] = {
+                'object': c is m,
+                'node-dicts': sorted(str(k) for k in c.nodes if k in m.nodes and c.nodes[k] is m.nodes[k]),
+                'interaction-table': c.interactions is m.interactions,
+                'interaction-lists': sorted(t for t in c.interactions if t in m.interactions and c.interactions[t] is m.interactions[t]),
+                'citations': c.citations is m.citations,
+                'meta': c.meta is m.meta,
+            }
         return out
 
     # ------------------------------------------------------------------ one transition
@@ -309,14 +324,28 @@ class Spec:
             else:
                 call = lambda: None
         elif name in ('copy', 'subgraph'):
-            if name == 'copy':
+            if name == 'copy' and len(op) > 2:
+                # the copy of a whole system: its molecules must be copies too
+                import vermouth
+                new_model = model.clone()
+
+                def maker():
+                    system = vermouth.System()
+                    system.molecules.append(mol)
+                    return system.copy().molecules[0]
+            elif name == 'copy':
                 new_model = model.clone()
                 maker = lambda: mol.copy()
             else:
                 keep = [k for k in model.nodes if k != max(model.nodes)] or list(model.nodes)
                 new_model = model.clone()
                 new_model.drop_nodes(set(model.nodes) - set(keep))
-                maker = lambda: mol.subgraph(keep)
+                if len(op) > 2:
+                    # the same selection, written with repeated keys so that the list is as long as the molecule has atoms
+                    keys = list(keep) + [keep[0]] * (len(model.nodes) - len(keep))
+                    maker = lambda: mol.subgraph(keys)
+                else:
+                    maker = lambda: mol.subgraph(keep)
             try:
                 world['impl']['C'] = maker()
             except Exception as err:
